@@ -95,8 +95,14 @@ class _Rec(BaseSampler):
         return np.array([[0.25 * ((k + r) % 5)] for r in range(batch_size)])
 
 
-def _rr_concrete(n, splits, restore_at=(), b_check=None):
-    """Real calibrator, real pickle: run `splits` calibrate calls (optionally pickling the scheduler in between)."""
+class _InjectedFault(Exception):
+    pass
+
+
+def _rr_concrete(n, splits, restore_at=(), b_check=None, fault_at=()):
+    """Real calibrator, real pickle: run `splits` calibrate calls (optionally pickling the scheduler in between).
+    fault_at: life-long batch indices in which the model raises once; the aborted batch is then requested again (the batch
+    counted 'over the whole life' of the calibration is the one that completes)."""
     import copy
 
     from black_it.loss_functions.minkowski import MinkowskiLoss
@@ -109,7 +115,14 @@ def _rr_concrete(n, splits, restore_at=(), b_check=None):
     sizes = [(i % 3) + 1 for i in range(n)]
     samplers = [cls(sizes[i], max_deduplication_passes=0) for i, cls in enumerate(classes)]
 
+    pending = set(fault_at)
+    holder = {}
+
     def model(theta, N, seed):
+        b = holder["c"].current_batch_index
+        if b in pending:
+            pending.discard(b)
+            raise _InjectedFault(f"model fails once in batch {b}")
         return np.full((N, 1), float(theta[0]))
 
     import contextlib
@@ -133,8 +146,14 @@ def _rr_concrete(n, splits, restore_at=(), b_check=None):
                     c = cal.Calibrator.restore_from_checkpoint(tmp, model)
                 for s in c.scheduler.samplers:
                     type(s).log = log
-            with contextlib.redirect_stdout(io.StringIO()):
-                c.calibrate(nb)
+            holder["c"] = c
+            target = c.current_batch_index + nb
+            while c.current_batch_index < target:
+                try:
+                    with contextlib.redirect_stdout(io.StringIO()):
+                        c.calibrate(target - c.current_batch_index)
+                except _InjectedFault:
+                    log.pop()  # the sampler call of the aborted batch; the batch is requested again
             total += nb
     finally:
         if tmp:
@@ -152,19 +171,19 @@ def _rr_concrete(n, splits, restore_at=(), b_check=None):
     if list(c.method_samp) != exp_m:
         bad = True
         msgs.append(f"method labels {list(c.method_samp)} expected {exp_m}")
-    return bad, f"n={n} splits={splits} restore_at={list(restore_at)}: " + ("; ".join(msgs) or "as prescribed")
+    return bad, f"n={n} splits={splits} restore_at={list(restore_at)}" + (f" model fails once in batches {sorted(fault_at)}, batch retried" if fault_at else "") + ": " + ("; ".join(msgs) or "as prescribed")
 
 
-def case_rr_multicall(n, splits, restore_at):
+def case_rr_multicall(n, splits, restore_at, fault_at=()):
     def body(ctx):
-        bad, info = _rr_concrete(n, splits, restore_at)
+        bad, info = _rr_concrete(n, splits, restore_at, fault_at=fault_at)
         # concrete base case of the induction (no symbolic input): decided by evaluation, recorded as such
         ctx.prove(z3.BoolVal(not bad), "rr_multicall_restore", info)
 
     def replay(cex):
-        return _rr_concrete(n, splits, restore_at)
+        return _rr_concrete(n, splits, restore_at, fault_at=fault_at)
 
-    return Case(f"rr-multi-n{n}-{'_'.join(map(str, splits))}-r{'_'.join(map(str, restore_at))}", body, replay)
+    return Case(f"rr-multi-n{n}-{'_'.join(map(str, splits))}-r{'_'.join(map(str, restore_at))}" + (f"-f{'_'.join(map(str, fault_at))}" if fault_at else ""), body, replay)
 
 
 def case_rl(layout, nbatches):
@@ -283,6 +302,12 @@ def cases(tier, seed):
         multi += [(5, [3, 3, 3], (1, 2)), (6, [7, 2], (1,)), (2, [1] * 6, (1, 2, 3, 4, 5))]
     for n, sp, ra in multi:
         cs.append(case_rr_multicall(n, sp, ra))
+    # a batch aborted by an exception of the model and requested again: the batch that completes is still batch i
+    faulty = [(2, [3], (), (1,)), (3, [2, 3], (1,), (0, 3)), (3, [4], (), (2,))]
+    if tier == "thorough":
+        faulty += [(4, [3, 3], (1,), (1, 4, 5)), (2, [5], (), (0, 1, 2, 3, 4))]
+    for n, sp, ra, fa in faulty:
+        cs.append(case_rr_multicall(n, sp, ra, fa))
     layouts = [("H",), ("U",), ("U", "H"), ("H", "U"), ("U", "U"), ("U", "H", "U"), ("U", "U", "U")]
     nb = 3
     if tier == "thorough":
